@@ -117,6 +117,11 @@ def case_setup(p):
             return must_raise(run.feed_m2(tlv8.encode(items)), f"m2-without-field-accepted:{arg}")
         if fault == "m2-empty":
             return must_raise(run.feed_m2(b""), "empty-m2-accepted")
+        if fault == "m2-state-alter":
+            from vt.props.c01 import STATE_ALTER
+
+            alt = [x for t, v in items for x in (STATE_ALTER[arg](b"\x02") if t == hap.T_STATE else [(t, v)])]
+            return must_raise(run.feed_m2(tlv8.encode(alt)), f"altered-state-m2-accepted:{arg}")
         if fault == "m2-corrupt-salt":
             items = [(t, _flip(v, arg) if t == hap.T_SALT else v) for t, v in items]
         elif fault == "m2-corrupt-B":
@@ -163,6 +168,10 @@ def case_setup(p):
             items = [(hap.T_STATE, b"\x04"), (hap.T_PROOF, _flip(proof, arg))]
         elif fault == "m4-error-extra":
             items = [(hap.T_STATE, b"\x04"), (hap.T_PROOF, proof), (hap.T_ERROR, bytes(arg))]
+        elif fault == "m4-state-alter":
+            from vt.props.c01 import STATE_ALTER
+
+            items = STATE_ALTER[arg](b"\x04") + [(hap.T_PROOF, proof)]
         elif fault == "m4-no-proof":
             items = [(hap.T_STATE, b"\x04")]
         elif fault == "m4-empty-proof":
@@ -261,9 +270,16 @@ def case_setup(p):
         wire = tlv8.encode(list(m6_honest_items) + [(hap.T_ERROR, bytes(arg))])
     elif f == "m6-no-enc":
         wire = tlv8.encode([(hap.T_STATE, b"\x06")])
+    elif f == "m6-state-alter":
+        from vt.props.c01 import STATE_ALTER
+
+        # the state item of M6 lies outside the encrypted part: nothing but the reply check itself notices an alteration of it
+        wire = tlv8.encode([x for t, v in m6_honest_items for x in (STATE_ALTER[arg](b"\x06") if t == hap.T_STATE else [(t, v)])])
     else:
         raise core.HarnessError(fault)
     verdict, presented = classify_m6(wire, acc, honest)
+    if f == "m6-state-alter":
+        verdict = "forged"  # an altered message makes pairing fail
     if f == "m6-error-extra":
         verdict = "forged"  # the accessory flags an error: nothing may be returned, whatever else the reply carries
     p["_verdict"] = verdict
@@ -346,6 +362,7 @@ def run(ctx):
         idlen = len(run0.ident.id)
         fl = [("honest", None)]
         fl += [("m2-omit", t) for t in (hap.T_SALT, hap.T_PK)] + [("m2-empty", None)]
+        fl += [(f"{m}-state-alter", a) for m in ("m2", "m4", "m6") for a in ("zero-ext", "zero-ext-3", "lead-zero", "two-items", "ff-ext")]
         fl += [("m2-corrupt-salt", b) for b in (bitsel(128)[:: 4 if quick else 1])]
         fl += [("m2-corrupt-B", b) for b in (0, 7, 8, 1535, 3064, 3071) + (() if quick else tuple(range(16, 3072, 128)))]
         fl += [("m2-B-special", s) for s in ("zero", "N", "one", "short", "empty")]
